@@ -28,13 +28,19 @@ pub struct Plan {
     pub custom_gen: Option<fn(u64, &Profile) -> crate::engine::Case>,
 }
 
-pub fn explorer_plan(prop: &str) -> Option<Plan> {
+pub fn explorer_plan(prop: &str, thorough: bool) -> Option<Plan> {
     let mut p = Profile::base();
     let plan = match prop {
         "C01" => {
             p.checks = Checks { forest: true, decode: true, build_must_succeed: true, termination: true, accuracy: true, ..Default::default() };
             p.rounds = (2, 6);
             p.p_bulk = 0.05;
+            if thorough {
+                // deeper bounds: larger live sets and bulk loads of up to 3000 items
+                p.max_items = 1500;
+                p.ops_per_round = (0, 300);
+                p.bulk_max = 3000;
+            }
             Plan {
                 profile: p,
                 cases: (10000, 160000),
@@ -168,7 +174,7 @@ pub fn explorer_plan(prop: &str) -> Option<Plan> {
             p.memory = vec![Some(0), Some(4096), Some(3 * 4096), Some(40_000), Some(200_000), Some(1 << 20), Some(64 << 20), None];
             p.dims = vec![3, 16, 64, 130, 256];
             p.split_after = vec![None, None, Some(1), Some(20), Some(250)];
-            p.max_items = 1000;
+            p.max_items = if thorough { 3000 } else { 1000 };
             p.ops_per_round = (150, 520);
             p.rounds = (1, 3);
             p.p_delete = 0.2;
